@@ -1,5 +1,10 @@
 #!/bin/sh
-# builds the engine offline
+# Offline setup: build the engine, warm the Go build cache for the packages the harnesses load (export data),
+# so the first check does not pay the cold `go list -export` cost.
 set -e
 cd "$(dirname "$0")"
-exec ./build.sh
+./build.sh
+export PATH=/opt/veriftools/go1.27.0/bin:$PATH GOFLAGS=-mod=mod GOPROXY=off GOSUMDB=off GOTOOLCHAIN=local
+(cd /repo && go build ./internal/vault/... ./internal/physical/... ./internal/builtin/logical/kv/... ./internal/builtin/logical/pki/... ./internal/builtin/logical/transit/... ./internal/audit/... >/dev/null 2>&1 || true)
+(cd /repo/sdk && go build ./... >/dev/null 2>&1 || true)
+echo setup done
